@@ -42,16 +42,20 @@ class KaniRun:
         if unwindset:
             # per-loop bounds for loops of the code under test (CBMC loop ids are mangled names: looked up in the
             # freshly generated goto binary); Kani keeps --unwinding-assertions on, a bound that is too small fails
-            loops = find_loops(crate_dir, self.target, self.harnesses[0], env_all)
+            try:
+                loops = find_loops(crate_dir, self.target, self.harnesses[0], env_all)
+            except Exception:
+                loops = []          # build errors are reported by the run itself
             pairs = []
             for frag, n in unwindset.items():
                 hit = [l for l in loops if frag in l]
-                if not hit:
-                    raise RuntimeError("no loop matching %r in the goto binary of %s" % (frag, crate))
+                # (a function that no longer exists in /repo's tree: the harness' global bound applies, slower, same verdicts)
                 pairs += ["%s:%d" % (l, n) for l in hit]
-            self.unwindset = ",".join(pairs)
-            LAST_UNWINDSET[crate] = self.unwindset
-            cmd += ["-Z", "unstable-options", "--cbmc-args", "--unwindset", "'%s'" % self.unwindset]
+            LAST_UNWINDSET.pop(crate, None)
+            if pairs:
+                self.unwindset = ",".join(pairs)
+                LAST_UNWINDSET[crate] = self.unwindset
+                cmd += ["-Z", "unstable-options", "--cbmc-args", "--unwindset", "'%s'" % self.unwindset]
         self.cmd = cmd
         self.log = tempfile.NamedTemporaryFile("w+", suffix=".kani.log", delete=False, dir=CACHE)
         env = env_all
